@@ -35,7 +35,7 @@ def gen_case(rng, i):
 
 
 def classify(mech, case, got, ref):
-    return None
+    return common.classify_known_js(mech, case, got, ref) if case.get('engine') == 'js' else None
 
 
 def plan(tier, seed):
